@@ -253,6 +253,15 @@ func Generate(seed uint64, up string, token string, qname refdns.Name, qclass, q
 			i++
 		}
 	}
+	// "late" shape: names whose first occurrence lies beyond offset 16383 (after
+	// the padding), where they can no longer be compression targets, repeated.
+	if spec.Shape == "late" {
+		for i := 0; i < 3; i++ {
+			n := refdns.NameFromLabels(append([][]byte{[]byte(fmt.Sprintf("late%d", i%2)), []byte("glue-host")}, qname.Labels()[max(0, len(qname.Labels())-2):]...)...)
+			m.Ar = append(m.Ar, refdns.RR{Name: n, Type: refdns.TypeA, Class: qclass, TTL: ttl(70 + i), Data: sr.bytes(4)})
+			m.Ar = append(m.Ar, refdns.RR{Name: qname, Type: refdns.TypeNS, Class: qclass, TTL: ttl(80 + i), Data: append([]byte{}, n...)})
+		}
+	}
 	// metadata record
 	meta := refdns.RR{Name: qname, Type: refdns.TypeTXT, Class: qclass, TTL: ttl(99), Data: Meta{Up: up, Serial: serial, Token: token, ECS: ecs, GenNs: genNs, Class: qclass, Type: qtype}.encode()}
 	ins := func(s []refdns.RR, at int, rr refdns.RR) []refdns.RR {
